@@ -813,7 +813,7 @@ fn expression_sentence_sweep(tier: Tier) -> Sweep {
         &[K::IntegerLiteral, K::LeftParen, K::RightParen, K::Plus, K::Minus, K::Asterisk, K::Slash, K::LessThan, K::LessThanOrEqualTo, K::DoubleEquals, K::GreaterThan, K::GreaterThanOrEqualTo],
         &["let", "application", "non_dependent_pi"],
     );
-    let sentences = Rc::new(RefCell::new(crate::enumerate::Sentences::new(g.clone(), 3, tier.pick(9, 10))));
+    let sentences = Rc::new(RefCell::new(crate::enumerate::Sentences::new(g.clone(), 3, tier.pick(11, 12))));
     let total = sentences.borrow().total;
     let s2 = sentences.clone();
     let g2 = g.clone();
@@ -846,15 +846,18 @@ fn expression_sentence_sweep(tier: Tier) -> Sweep {
                 crate::infra::machinery(&format!("expression sentence does not resolve: {text}"));
                 return;
             };
+            // ill-typed sentences (a comparison used as an operand) are told by the reference checker, not
+            // by the interpreter: a division by zero may come before the wrong operand is reached
+            let well_typed = matches!(sem::reference_check(&m, None), RefVerdict::WellTyped);
             let want = match interp::run(&m, sem::INTERP_FUEL) {
-                Outcome::Value(v) => Some(v.describe()),
-                Outcome::DivisionByZero => Some("division by zero".to_owned()),
-                _ => None, // ill-typed: a comparison used as an operand
+                Outcome::Value(v) if well_typed => Some(v.describe()),
+                Outcome::DivisionByZero if well_typed => Some("division by zero".to_owned()),
+                _ => None,
             };
             sem::front_end(&text, |f| match f {
                 FrontEnd::Accepted(acc) => {
                     let Some(want) = &want else {
-                        violation("ill-typed-expression-accepted", &text, "rejected (the reference interpreter gets stuck on it)", &acc.ty.show());
+                        violation("ill-typed-expression-accepted", &text, "rejected (the reference checker rejects it)", &acc.ty.show());
                         return;
                     };
                     let r = sem::evaluator_graph(acc.elab_real, 10_000, |_, _, _| {
